@@ -237,7 +237,7 @@ RebuildJudged ==
      /\ k = "txs" => ValidBlock(cx, pblk)
      /\ k \in {"round", "sig_absent_rt", "sig_ts_signed_rt", "sig_nil"} =>
            (ValidBlock(cx, pblk) <=> (Tallied(lv, c) > (TotalPower(lv) * 2) \div 3 /\ pblk.time > cx.st.lastTime))
-     /\ k \in {"sig_addr", "sig_addr_rt", "all_ts_last_rt", "sig_nil_unsigned", "sig_ts", "sig_bad", "sig_extra", "sig_fewer", "initial_commit",
+     /\ k \in {"sig_addr", "sig_addr_rt", "height_skip", "all_ts_last_rt", "sig_nil_unsigned", "sig_ts", "sig_bad", "sig_extra", "sig_fewer", "initial_commit",
                "ev_badpower", "ev_badtotal", "ev_badsig", "ev_wrongtime", "ev_dup", "ev_oversize", "ev_committed"}
            => ~ValidBlock(cx, pblk)
      /\ k \in {"ev_valid", "ev_old"} =>
